@@ -1,4 +1,12 @@
 IPC_WRAP := $(SCHED_WRAP) -Wl,--wrap=sem_timedwait -Wl,--wrap=clock_gettime -Wl,--wrap=clock_getres -Wl,--wrap=nanosleep -Wl,--wrap=usleep \
-  -Wl,--wrap=poll -Wl,--wrap=epoll_wait -Wl,--wrap=send -Wl,--wrap=recv -Wl,--wrap=sendmsg -Wl,--wrap=recvmsg -Wl,--wrap=writev -Wl,--wrap=kill -Wl,--wrap=socket -Wl,--wrap=accept
+  -Wl,--wrap=poll -Wl,--wrap=epoll_wait -Wl,--wrap=send -Wl,--wrap=recv -Wl,--wrap=sendmsg -Wl,--wrap=recvmsg -Wl,--wrap=writev -Wl,--wrap=kill -Wl,--wrap=socket -Wl,--wrap=accept -Wl,--wrap=close -Wl,--wrap=epoll_create1 -Wl,--wrap=connect -Wl,--wrap=bind -Wl,--wrap=shutdown -Wl,--wrap=unlink -Wl,--wrap=rmdir -Wl,--wrap=mkdtemp -Wl,--wrap=ftruncate -Wl,--wrap=chmod -Wl,--wrap=chown -Wl,--wrap=munmap -Wl,--wrap=open
 EXTRA_c02_ipc_fifo := $(SCHED_O)
 LDFLAGS_c02_ipc_fifo := $(IPC_WRAP)
+EXTRA_c04_ipc_callbacks := $(SCHED_O)
+LDFLAGS_c04_ipc_callbacks := $(IPC_WRAP)
+EXTRA_c03_ipc_death := $(SCHED_O)
+LDFLAGS_c03_ipc_death := $(IPC_WRAP)
+EXTRA_c05_ipc_admission := $(SCHED_O)
+LDFLAGS_c05_ipc_admission := $(IPC_WRAP)
+EXTRA_c06_ipc_hostile := $(SCHED_O)
+LDFLAGS_c06_ipc_hostile := $(IPC_WRAP)
